@@ -37,6 +37,14 @@ claimed["C03"] = dict(
    ref="DESIGN.md 5/C03, engine E2",
    technique="static error-propagation and guard (dominating branch edge) analysis on go/ssa; anchors resolved by role (custom analyzer)")
 
+claimed["C04"] = dict(
+   text="Static path analysis over the verification closure decides, for all inputs: a rejected Stump.Update has written nothing (no state write can reach a "
+        "failing return; complete for that clause); no discarded error can be non-nil (callee error condition excluded by a dominating guard on the same SSA values); "
+        "every loop matches a terminating idiom or a reviewed entry and the reviewed merge loop makes progress on every path; caller-supplied slices are indexed "
+        "only behind length tests. Termination of the two reviewed loops and absence of all index panics are not decided.",
+   ref="DESIGN.md 5/C04, engine E2",
+   technique="static must-not-precede (CFG reachability with error-edge refinement), guard analysis on SSA values, loop-idiom classification on the typed AST (custom analyzer)")
+
 pending = {}  # id -> reason, for properties whose check is not built yet
 
 not_applicable = {
